@@ -32,6 +32,9 @@ def cases(tier, seed, prep=None):
     out = [{"seed": seed * 1000003 + 1100000 + i, "relay": i % 4 == 1, "nfaults": [0, 1, 1, 2, 3][i % 5]} for i in range(n)]
     # long-lived sessions: many generations
     out += [{"seed": seed * 1000003 + 1150000 + i, "relay": i % 4 == 1, "nfaults": [6, 10, 16][i % 3]} for i in range(15 if tier == "quick" else 400)]
+    # a path that delivers the start of every connection byte by byte (a slow serial-like hop, a re-chunking relay):
+    # every cut point of the relay answer, the prologues and the handshake, on first connections and reconnections
+    out += [{"seed": seed * 1000003 + 1170000 + i, "relay": i % 3 == 1, "nfaults": [0, 1, 2][i % 3], "bytewise": True} for i in range(45 if tier == "quick" else 1500)]
     # an application keeps streaming data while the link dies silently (a dead peer acknowledges nothing: the
     # kernel's send buffer fills up and stays full)
     out += [{"seed": seed * 1000003 + 1160000 + i, "relay": False, "nfaults": [1, 1, 2][i % 3], "bulk": "AB"[i % 2]} for i in range(40 if tier == "quick" else 1200)]
@@ -78,7 +81,7 @@ def run_case(spec):
     drv.drain_actions = actions
     drv.pending_listen = {"A": [], "B": []}
     drv.factories = {"A": {}, "B": {}}
-    sch = Scheduler(world, drv, strategy=rng.choice(["random", "pct", "netfirst", "timersfirst"]), chunking="mixed",
+    sch = Scheduler(world, drv, strategy=rng.choice(["random", "pct", "netfirst", "timersfirst"]), chunking="mixed" if not spec.get("bytewise") else "bytewise-start",
                     tiny_budget=rng.choice([100, 1000]))
     bulk = {"started": False, "obj": None}
     if spec.get("bulk"):
@@ -233,7 +236,7 @@ def run_case(spec):
     return {"violations": viol, "nontrivial": nontrivial,
             "counters": {"probes": probes["n"], "connected_cases": int(probes["connected_once"]), "faults": faults["done"],
                          "faults_skipped": faults["skipped"], "reconverged": int(converged and same_link),
-                         "l2_links": len(dp.l2_links()), "relay_cases": int(spec["relay"]), "bulk_cases": int(bulk["started"]),
+                         "l2_links": len(dp.l2_links()), "relay_cases": int(spec["relay"]), "bulk_cases": int(bulk["started"]), "bytewise_cases": int(bool(spec.get("bytewise"))),
                          "bulk_bytes": bulk["obj"].written if bulk["obj"] else 0, "far_end_gone_at_probe": probes["far_end_gone"],
                          **{"fault_" + k: faults["kinds"].count(k) for k in set(faults["kinds"])},
                          "notrans_seen": len(MON.notrans)},
